@@ -308,7 +308,8 @@ func frameCheck(e *Env, sum bool) {
 	if e.Only == "" {
 		callerSuppliedBodies(e, sum)
 	}
-	if e.Thorough {
+	if e.Thorough || (sum && e.Only == "") {
+		// frames > 8 MiB of 0xFF: where a 32-bit running sum that is reduced too late overflows (quick: checksum check only)
 		bigFrames(e, sum)
 	}
 	if !sum && !isAbsentChild(e) {
@@ -442,7 +443,7 @@ func bigFrames(e *Env, sum bool) {
 	}
 	big := 0
 	for si, s := range specs {
-		if si >= 6 {
+		if si >= 6 || (!e.Thorough && si >= 2) {
 			break
 		}
 		t := e.S.Types[s.frame]
@@ -493,6 +494,11 @@ func bigFrames(e *Env, sum bool) {
 type plainBody struct{ N int }
 
 func (b *plainBody) Encode(buf *bytes.Buffer) error {
+	if b.N > 1<<20 {
+		// a very large body of 0xFF bytes: byte sums kept in 32 bits overflow beyond 8 421 504 of them
+		buf.Write(bytes.Repeat([]byte{0xFF}, b.N))
+		return nil
+	}
 	for i := 0; i < b.N; i++ {
 		buf.WriteByte(byte(0xA0 + i%7))
 	}
@@ -515,8 +521,15 @@ func callerSuppliedBodies(e *Env, sum bool) {
 		}
 		rng := gen.NewRng(e.Seed, prop, "caller-bodies", t.QName)
 		for h := 0; h < nHist; h++ {
-			for _, n := range []int{0, 1, 7, 300} {
+			ns := []int{0, 1, 7, 300}
+			if sum && (h == 0 || h == 2) {
+				ns = append(ns, 8421505+4096) // > 8 MiB of 0xFF (checksum check only: the sum must be reduced as it goes)
+			}
+			for _, n := range ns {
 				for _, refuse := range []bool{false, true} {
+					if refuse && n > 1<<20 {
+						continue
+					}
 					frame := e.C.New[t.QName]()
 					fv := reflect.ValueOf(frame).Elem()
 					var body any = &plainBody{N: n}
